@@ -26,6 +26,9 @@ import (
 	"github.com/elastos/Elastos.ELA/core/types/outputpayload"
 	"github.com/elastos/Elastos.ELA/crypto"
 	"github.com/elastos/Elastos.ELA/dpos/state"
+	"github.com/elastos/Elastos.ELA/elanet"
+	"github.com/elastos/Elastos.ELA/p2p/msg"
+	"github.com/elastos/Elastos.ELA/servers"
 
 	"github.com/elastos/Elastos.ELA/common"
 	"github.com/elastos/Elastos.ELA/common/config"
@@ -415,4 +418,248 @@ func Gen(g *hx.Gen) {
 			}
 		}
 	}
+}
+
+// ---------------------------------------------------------------- op "e2e": the policies through the node's real paths
+//
+//	e2e pool|block|rpc <h> <f> <r> <entries> <in> <outs>
+//	    A fresh regnet node whose parameters carry the two heights and the frozen list (letters: A = the
+//	    foundation account, F G O = accounts 1 2 3, X = a cross-chain address).  The chain is mined to height
+//	    h-1, then ONE transaction is offered for height h: it spends the foundation's genesis output (in = A,
+//	    validly signed) or a cross-chain output created at height 2 (in = X, unsigned) and pays to <outs>.
+//	      pool : TxPool.AppendToTxPool            (mempool admission: validates for best height + 1)
+//	      block: assemble + BlockChain.ProcessBlock (block validation: validates for block.Height)
+//	      rpc  : servers.SendRawTransaction with the serialised transaction (then the mempool)
+//	    Output as for ctx: passed | cc … | fz …   ("passed" = no policy refused it; LastNil = it was accepted);
+//	    on the block path: passed (block connected) | rejected (a context check of block validation refused).
+
+type relayStub struct{ elanet.Server }
+
+func (relayStub) RelayInventory(*msg.InvVect, interface{}) {}
+
+func e2eHash(n *regnet.Node, l byte) common.Uint168 {
+	switch l {
+	case 'A':
+		return n.Accounts[0].ProgramHash
+	case 'F':
+		return n.Accounts[1].ProgramHash
+	case 'G':
+		return n.Accounts[2].ProgramHash
+	case 'O':
+		return n.Accounts[3].ProgramHash
+	}
+	return HashOf(l)
+}
+
+func classify(m string) string {
+	idx := "?"
+	if a := strings.Index(m, "addr#"); a >= 0 {
+		rest := m[a+5:]
+		if b := strings.Index(rest, "#"); b >= 0 {
+			idx = rest[:b]
+		}
+	}
+	switch {
+	case strings.Contains(m, "temporarily frozen"):
+		return "cc frozen"
+	case strings.Contains(m, "unsupported WithdrawFromSideChain payload version"):
+		return "cc wver"
+	case strings.Contains(m, "only WithdrawFromSideChain and ReturnSideChainDepositCoin"):
+		return "cc nottype"
+	case strings.Contains(m, "only legacy ReturnSideChainDepositCoin"):
+		return "cc notlegacy"
+	case strings.Contains(m, "ReturnSideChainDepositCoin can only spend"):
+		return "cc mixed"
+	case strings.Contains(m, "cannot use utxo from the frozen address"):
+		return "fz spend " + idx
+	case strings.Contains(m, "cannot send to the frozen address"):
+		return "fz receive " + idx
+	}
+	return "passed"
+}
+
+// E2E runs an e2e op.
+func E2E(t []string) string {
+	Close() // one node per process: drop the ctx node if any
+	path, h, f, r := t[1], u32(t[2]), u32(t[3]), u32(t[4])
+	entries, in, outs := ParseEntries(t[5]), t[6], letters(t[7])
+	if h < 3 {
+		panic("harness: e2e needs h >= 3")
+	}
+	dir, err := os.MkdirTemp("", "pe2e")
+	if err != nil {
+		panic("harness: " + err.Error())
+	}
+	defer os.RemoveAll(dir)
+	var node *regnet.Node
+	node, err = regnet.NewNode(dir, regnet.Options{CoinbaseMaturity: 1, NoPoolEvents: false, Tweak: func(p *config.Configuration) {
+		p.CrossChainUTXOFreezeHeight, p.CrossChainUTXORestrictionHeight = f, r
+	}})
+	if err != nil {
+		panic("harness: regnet node: " + err.Error())
+	}
+	defer node.Close()
+	// the frozen list needs the accounts' hashes, known only now: the parameters object is shared with the chain
+	node.Params.FrozenAddresses = nil
+	for i, e := range entries {
+		fa := config.FrozenAddress{Address: fmt.Sprintf("addr#%d#", i), DisableStartHeight: e.Start}
+		if e.Letter != 'n' {
+			ph := e2eHash(node, e.Letter)
+			fa.ProgramHash = &ph
+		}
+		node.Params.FrozenAddresses = append(node.Params.FrozenAddresses, fa)
+	}
+	gen := node.Genesis.Transactions[0]
+	genOut := common2.OutPoint{TxID: gen.Hash(), Index: 0}
+	total := gen.Outputs()[0].Value
+	parent := node.Genesis
+	mine := func(txs []interfaces.Transaction) {
+		b, err := node.Mine(parent, txs)
+		if err != nil {
+			panic("harness: mine: " + err.Error())
+		}
+		if _, _, err := node.Deliver(b); err != nil {
+			panic("harness: deliver: " + err.Error())
+		}
+		parent = b
+	}
+	mine(nil) // height 1
+	var tx interfaces.Transaction
+	type out struct {
+		To    common.Uint168
+		Value common.Fixed64
+	}
+	mkOuts := func(avail common.Fixed64) []out {
+		var os []out
+		for _, l := range outs {
+			os = append(os, out{To: e2eHash(node, l), Value: 1000})
+			avail -= 1000
+		}
+		return append(os, out{To: node.Accounts[4].ProgramHash, Value: avail - 10000}) // change, fee 10000
+	}
+	build := func(in common2.OutPoint, os []out, nonce byte, sign bool) interfaces.Transaction {
+		var outputs []*common2.Output
+		for _, o := range os {
+			outputs = append(outputs, &common2.Output{AssetID: core.ELAAssetID, Value: o.Value, Type: common2.OTNone, Payload: &outputpayload.DefaultOutput{}, ProgramHash: o.To})
+		}
+		txn := transaction.CreateTransaction(common2.TxVersion09, common2.TransferAsset, 0, &payload.TransferAsset{},
+			[]*common2.Attribute{{Usage: common2.Nonce, Data: []byte{nonce}}}, []*common2.Input{{Previous: in}}, outputs, 0, nil)
+		if sign {
+			if err := node.Sign(txn, 0); err != nil {
+				panic("harness: sign: " + err.Error())
+			}
+		} else {
+			// a syntactically plausible cross-chain (multi-sig style) program; its signature is not valid
+			code := append([]byte{0x51, 0x21, 0x02}, make([]byte, 32)...)
+			code = append(code, 0x51, 0xAF)
+			txn.SetPrograms([]*program.Program{{Code: code, Parameter: append([]byte{0x40}, make([]byte, 64)...)}})
+		}
+		return txn
+	}
+	if in == "X" {
+		// height 2: the foundation pays to the cross-chain address (the frozen list may forbid that: then
+		// the scenario is not applicable)
+		fund := build(genOut, []out{{To: HashOf('X'), Value: 100000}, {To: node.Accounts[4].ProgramHash, Value: total - 100000 - 10000}}, 1, true)
+		b, err := node.Mine(parent, []interfaces.Transaction{fund})
+		if err != nil {
+			panic("harness: mine: " + err.Error())
+		}
+		if _, _, err := node.Deliver(b); err != nil {
+			return "n/a funding refused: " + strings.ReplaceAll(err.Error(), " ", "_")
+		}
+		parent = b
+		tx = build(common2.OutPoint{TxID: fund.Hash(), Index: 0}, mkOuts(100000), 7, false)
+	} else {
+		mine(nil) // height 2
+	}
+	for _, hh := node.Tip(); hh+1 < h; _, hh = node.Tip() {
+		mine(nil)
+	}
+	if in != "X" {
+		tx = build(genOut, mkOuts(total), 2, true)
+	}
+	LastNil, LastErr = false, ""
+	var msgText string
+	switch path {
+	case "pool":
+		if e := node.Pool.AppendToTxPool(tx); e != nil {
+			msgText = e.Error()
+			if ie := e.InnerError(); ie != nil {
+				msgText += " | " + ie.Error()
+			}
+		}
+	case "block":
+		b, err := node.Mine(parent, []interfaces.Transaction{tx})
+		if err != nil {
+			panic("harness: mine: " + err.Error())
+		}
+		if _, _, err := node.Deliver(b); err != nil {
+			// block validation hides which context check refused the transaction
+			LastNil, LastErr = false, err.Error()
+			if strings.Contains(err.Error(), "CheckTransactionContext failed") {
+				return "rejected"
+			}
+			return "rejected-other " + strings.ReplaceAll(err.Error(), " ", "_")
+		}
+	case "rpc":
+		servers.Chain, servers.Store, servers.TxMemPool, servers.ChainParams, servers.Server = node.Chain, node.Store, node.Pool, node.Params, relayStub{}
+		buf := new(bytes.Buffer)
+		if err := tx.Serialize(buf); err != nil {
+			panic("harness: " + err.Error())
+		}
+		res := servers.SendRawTransaction(servers.Params{"data": common.BytesToHexString(buf.Bytes())})
+		if fmt.Sprint(res["Error"]) != "0" {
+			msgText = fmt.Sprint(res["Result"])
+		}
+	default:
+		panic("harness: unknown e2e path " + path)
+	}
+	LastNil, LastErr = msgText == "", msgText
+	if msgText == "" {
+		return "passed"
+	}
+	return classify(msgText)
+}
+
+// E2EOracle: as Oracle, on the e2e token layout (… <h> <f> <r> <entries> <in> <outs>).
+func E2EOracle(t []string, out string) *hx.Violation {
+	if out != "passed" {
+		return nil
+	}
+	v := oracle([]string{"ctx", "2", "0", t[2], t[3], t[4], t[5], t[6], t[7]})
+	if v != nil {
+		v.Kind = strings.Replace(v.Kind, "context-check", t[1]+"-path", 1)
+		if LastNil {
+			v.Detail += " — the " + t[1] + " path ACCEPTED the transaction"
+		} else {
+			v.Detail += " — no policy check refused it on the " + t[1] + " path (it failed later: " + LastErr + ")"
+		}
+	}
+	return v
+}
+
+// E2EGen emits the e2e scenarios (a node per op: kept small).
+func E2EGen(g *hx.Gen, frozenFocus bool) {
+	paths := []string{"pool", "block", "rpc"}
+	for _, p := range paths {
+		if frozenFocus {
+			for _, h := range []uint32{4, 5, 6} { // start height 5
+				g.Emit("e2e %s %d 4294967295 4294967295 F:5 A F", p, h)  // pay to a frozen address
+				g.Emit("e2e %s %d 4294967295 4294967295 A:5 A O", p, h)  // spend from a frozen address
+				g.Emit("e2e %s %d 4294967295 4294967295 G:5 A FO", p, h) // untouched
+			}
+			g.Emit("e2e %s 5 4294967295 4294967295 n:1,F:5 A OF", p)
+		} else {
+			for _, h := range []uint32{3, 4, 5, 6, 7} { // freeze 4, restriction 6
+				if p != "block" { // an unsigned spend never gets into a block whatever the policy says
+					g.Emit("e2e %s %d 4 6 - X O", p, h)
+				}
+			}
+			g.Emit("e2e %s 5 4 6 - A O", p)
+			if p != "block" {
+				g.Emit("e2e %s 5 4294967295 4294967295 - X O", p)
+			}
+		}
+	}
+	Close()
 }
